@@ -1,6 +1,7 @@
 /-
-  C15 — deduplicate_namespaces only removes redundant declarations.
-  Property theorems only; for every tree, every path, every environment.
+  C15 — deduplicate_namespaces only removes redundant declarations (as of /repo d434a2d: passes of
+  `deduplicate_namespaces_pass` until one removes nothing).
+  Property theorems only; for every tree, every path (call node), every environment.
 
     C15_subset            per node (raw document order, namespace nodes themselves not counted) the
                           declarations after are a sublist of the declarations before: nothing is
@@ -8,42 +9,44 @@
     C15_frame             the tree without its namespace nodes is unchanged: element names,
                           attributes (names, values, order), text, comments, PIs, shape
     C15_same_nodes        the per-node comparison of C15_subset is between the same nodes
-    C15_idem_false        "a second call removes nothing" is FALSE as written: closed witness
-                          <r xmlns:q="C" xmlns:p="A"><m xmlns:q="A"><n xmlns:r="C"/></m></r>
-    C15_recursive_form    deduplicate_namespaces(root) = the recursive rebuild `rbWalk` (traverse + fix-up
-                          list + removal loops discharged once; Lemmas/ScopeRebuild.lean)
-    C15_serialises_partial  under NoShadowing (no prefix declared twice on any root-to-node path, xml
-                          not declared, only elements carry declarations): if every name could be
-                          written before deduplicate_namespaces(root), every name can be written after
-    C15_serialises_false  "a tree that serialised before still serialises" is FALSE as written:
-                          closed witness <a xmlns:q="A"><b xmlns:p="A" xmlns:q="B"><p:a/></b></a>
-                          (namesWritable = to_string does not fail with MissingPrefix; tied to the
-                          implementation by the `scope writable` requests)
-    C15_recursive_form_inner   deduplicate_namespaces(node) for ANY node = the same rebuild of the subtree,
-                          started from an EMPTY name stack and tracker, put back at the node's place
-    C15_serialises_partial_inner   C15_serialises_partial for a call on ANY node
     C15_keeps_undeclarations   no binding to the no-namespace id (xmlns="", xmlns:p="") is ever removed, node
                           by node, any call node, given unique prefixes per element in the call's subtree
                           (C15_keeps_undeclarations_unique_needed: closed witness without it)
-    C15_idem_partial      a second call removes nothing when, in the call's subtree, no prefix is ever
-                          re-bound to another namespace further down a path (noRebind; repeating the same
-                          declaration is allowed) and no attribute is in a namespace declared as default
-                          namespace on its element or above (noFlag); C15_idem_needs_noRebind /
-                          C15_idem_needs_noFlag: each guard alone does not suffice (closed witnesses)
+    C15_terminates        every pass that reports a removal makes the tree strictly smaller: the
+                          `while` loop of the Rust ends
+    C15_fuel_suffices     the loop of the model (fuel `t.size + 1`) stops because a pass removed nothing,
+                          never because the fuel ran out; more fuel gives the same tree
+    C15_idem              a second call removes nothing: deduplicate_namespaces(node) on the result is
+                          the identity (full strength, every tree, every call node)
+    C15_recursive_form    one pass on ANY node = the recursive rebuild `dpWalk` of the subtree, started
+                          from an EMPTY kept stack, put back at the node's place
+    C15_serialises        "a tree that serialised before still serialises": for every start node that
+                          is not strictly inside the call's subtree (the root, the ancestors of the call
+                          node, the call node itself, everything beside it) — `namesWritable` = to_string
+                          does not fail with MissingPrefix —, given unique prefixes per element in the
+                          call's subtree (C15_serialises_unique_needed: closed witness without it)
+    C15_serialises_root / _call_node   the two instances the property names
+    C15_serialises_inside for EVERY start node strictly inside the call's subtree too (its raw path
+                          shifts when namespace nodes before it go: the nodes are matched by position
+                          in `startPaths`, the raw-order list of non-namespace nodes)
+    C15_serialises_everywhere   … hence every start node of every tree in the C01 domain, any call node;
+                          C15_serialises_inside_only_elements_needed: closed witness without the second guard
     C15_representable     the call keeps a tree inside the C01 domain (`Representable`, decidable)
-    C15_reparses_deep_equal   "… to text that reparses deep-equal to the original", FULL strength: whenever
-                          the tree after the call serialises, the text parses back to exactly that tree,
-                          which is deep_equal to the tree before the call (corollary of C01_roundtrip)
-    C15_roundtrip_partial under NoShadowing (the boundary of C15_serialises_false): a representable tree
-                          that serialised before serialises after, and the text reparses deep_equal
+    C15_reparses_deep_equal   "… to text that reparses deep-equal to the original": whenever the tree
+                          after the call serialises, the text parses back to exactly that tree, which
+                          is deep_equal to the tree before the call (corollary of C01_roundtrip)
+    C15_roundtrip         the whole sentence: a representable document every name of which `to_string`
+                          could write before deduplicate_namespaces(node) — any node — serialises
+                          afterwards, and the text parses back to the tree after the call, which is
+                          deep_equal to the original (`C15_roundtrip_text`: with "serialised before" as
+                          "to_string returned a text")
 -/
 import XotModel.Lemmas.ScopeDedup
-import XotModel.Lemmas.ScopeKeepNames
-import XotModel.Lemmas.ScopeInner
-import XotModel.Lemmas.ScopeUndecl
-import XotModel.Lemmas.ScopeIdem
-import XotModel.Lemmas.ScopeIdemGuards
-import XotModel.Lemmas.ScopeRoundTrip
+import XotModel.Lemmas.DedupFuel
+import XotModel.Lemmas.DedupUnique
+import XotModel.Lemmas.DedupSerialise
+import XotModel.Lemmas.DedupInside
+import XotModel.Lemmas.DedupRoundTrip
 import XotModel.Props.C01
 
 namespace XotModel.Props
@@ -66,103 +69,13 @@ theorem C15_frame (env : Env) (t t' : Tree) (path : Path)
   ⟨(NsShrink.deduplicateNamespaces env t t' path h).strip,
    (NsShrink.deduplicateNamespaces env t t' path h).value⟩
 
-/-- A second call removes nothing (as the property states it). -/
-def C15_idem_statement : Prop :=
-  ∀ (env : Env) (t t1 : Tree) (path : Path),
-    deduplicateNamespaces env t path = some t1 → deduplicateNamespaces env t1 path = some t1
-
-def c15IdemWitness : Tree :=
-  .node (.element 0) [.node (.namespace 3 4) [], .node (.namespace 2 2) [],
-    .node (.element 0) [.node (.namespace 3 2) [],
-      .node (.element 0) [.node (.namespace 4 4) []]]]
-
-/-- FALSE as written. In `<r xmlns:q="C" xmlns:p="A"><m xmlns:q="A"><n xmlns:r="C"/></m></r>` the
-    first call removes `xmlns:q="A"` from `m` (A is known through `p`); that un-shadows `q ↦ C`,
-    so the second call finds `C` known at `n` and removes `xmlns:r="C"` too. -/
-theorem C15_idem_false : ¬ C15_idem_statement := by
-  intro h
-  have key : ((deduplicateNamespaces {} c15IdemWitness []).bind fun t1 =>
-      (deduplicateNamespaces {} t1 []).map declsOfTree) ≠
-      (deduplicateNamespaces {} c15IdemWitness []).map declsOfTree := by decide
-  apply key
-  cases hd : deduplicateNamespaces {} c15IdemWitness [] with
-  | none => rfl
-  | some t1 => simp [h {} c15IdemWitness t1 [] hd]
-
-/-- A tree whose names could all be written before can still be written afterwards. -/
-def C15_serialises_statement : Prop :=
-  ∀ (env : Env) (t t' : Tree),
-    deduplicateNamespaces env t [] = some t' → namesWritable env t [] = some true →
-    namesWritable env t' [] = some true
-
-def c15SerWitness : Tree :=
-  .node (.element 0) [.node (.namespace 3 2) [],
-    .node (.element 0) [.node (.namespace 2 2) [], .node (.namespace 3 3) [],
-      .node (.element 1) []]]
-
-def c15SerEnv : Env := { namespaces := [], prefixes := [], names := [(['a'], 0), (['a'], 2)] }
-
-/-- FALSE as written. `<a xmlns:q="A"><b xmlns:p="A" xmlns:q="B"><p:a/></b></a>`: `xmlns:p="A"` on
-    `b` is dropped because `A` is known above through `q`, but `q` is redeclared on `b` itself, so
-    `{A}a` is left without a prefix and `to_string` fails with `MissingPrefix`. -/
-theorem C15_serialises_false : ¬ C15_serialises_statement := by
-  intro h
-  have key : ((deduplicateNamespaces c15SerEnv c15SerWitness []).bind fun t' =>
-      namesWritable c15SerEnv t' []) = some false := by decide
-  have hw : namesWritable c15SerEnv c15SerWitness [] = some true := by decide
-  cases hd : deduplicateNamespaces c15SerEnv c15SerWitness [] with
-  | none => simp [hd] at key
-  | some t' =>
-    have := h c15SerEnv c15SerWitness t' hd hw
-    simp [hd, this] at key
-
-/-- The three loops of `deduplicate_namespaces` (edge traversal with name stack and tracker,
-    fix-up list, removal by prefix) amount to one recursive rebuild of the tree. -/
-theorem C15_recursive_form (env : Env) (t : Tree) :
-    deduplicateNamespaces env t [] = some (rbWalk env [] t []).2 :=
-  deduplicateNamespaces_root env t
-
-/-- The boundary of the defect: no prefix is declared twice on any root-to-node path (so nothing
-    is shadowed), `xml` is not declared, and only elements carry declarations. -/
-def NoShadowing (t : Tree) : Prop := noShadow [Env.xmlPrefix] t
-
-/-- Without shadowing, `deduplicate_namespaces(root)` keeps every name writable: if `to_string`
-    found a prefix for every element and attribute name before, it does after. (Elements keep
-    the outermost declaration of their namespace; attributes keep a non-empty prefix because the
-    DeduplicateTracker refuses the removal whenever the namespace is otherwise only the default
-    namespace and an attribute below uses it.) -/
-theorem C15_serialises_partial (env : Env) (t t' : Tree)
-    (hd : deduplicateNamespaces env t [] = some t') (hg : NoShadowing t)
-    (hw : namesWritable env t [] = some true) : namesWritable env t' [] = some true :=
-  namesWritable_dedup_root env t t' hd hg hw
-
-/-! ### Calls on an inner node -/
-
-/-- `deduplicate_namespaces(node)` for any node: the subtree at the node is rebuilt by the same
-    recursive function as for a root call — name stack and tracker start EMPTY at the node, no
-    declaration above it is looked at — and everything outside the subtree is untouched. -/
-theorem C15_recursive_form_inner (env : Env) (t : Tree) (path : Path) (sub : Tree)
-    (hs : t.at? path = some sub) :
-    deduplicateNamespaces env t path =
-      some (scopeModifyAt (fun s => (rbWalk env [] s []).2) t path) :=
-  deduplicateNamespaces_inner env t path sub hs
-
-/-- `C15_serialises_partial` for a call on ANY node of the tree: under `NoShadowing` of the whole
-    tree, every name `to_string(root)` could write before `deduplicate_namespaces(node)` it can
-    write afterwards.  (The call knows nothing about the declarations above `node`; it can only
-    remove a declaration whose namespace is bound by an ancestor INSIDE the subtree, and without
-    shadowing that binding still reaches the name.) -/
-theorem C15_serialises_partial_inner (env : Env) (t t' : Tree) (path : Path)
-    (hd : deduplicateNamespaces env t path = some t') (hg : NoShadowing t)
-    (hw : namesWritable env t [] = some true) : namesWritable env t' [] = some true :=
-  namesWritable_dedup_inner env t t' path hd hg hw
-
 /-! ### Undeclarations are never removed -/
 
 /-- For every tree and every call node: node by node (the nodes are the same before and after:
     `C15_frame`, `C15_same_nodes`; `declsOfTree` lists the declarations of every non-namespace node in
     raw document order), every binding to the no-namespace id — `xmlns=""`, and `xmlns:p=""`
-    which `Xot` accepts — that was there before is there afterwards.
+    which `Xot` accepts — that was there before is there afterwards (`is_redundant_declaration`
+    returns `false` first thing).
     Hypothesis: no element of the call's subtree declares a prefix twice (the removal loop goes by
     prefix and deletes the FIRST namespace node with that key). -/
 theorem C15_keeps_undeclarations (env : Env) (t t' : Tree) (path : Path) (sub : Tree)
@@ -184,131 +97,261 @@ def c15UndeclWitness : Tree :=
     .node (.element 0) [.node (.namespace 2 0) [], .node (.namespace 2 2) []]]
 
 /-- The hypothesis is needed: `<a xmlns:q="A"><b xmlns:p="" xmlns:p="A"/></a>` (a prefix declared
-    twice on `b`; not constructible through the namespace map of the API): `A` is to be removed
-    from `b`, the loop removes "the declaration of `p`", which is `xmlns:p=""`. -/
+    twice on `b`; not constructible through the namespace map of the API): `xmlns:p="A"` is redundant
+    on `b`, the loop removes "the declaration of `p`", which is `xmlns:p=""` (and the next pass
+    removes `xmlns:p="A"`, still redundant). -/
 theorem C15_keeps_undeclarations_unique_needed :
     ¬ ∀ (env : Env) (t t' : Tree), deduplicateNamespaces env t [] = some t' →
         AllKeep (declsOfTree t') (declsOfTree t) := by
   intro h
-  have hd : (deduplicateNamespaces {} c15UndeclWitness []).map declsOfTree = some [[(3, 2)], [(2, 2)]] := by
+  have hd : (deduplicateNamespaces {} c15UndeclWitness []).map declsOfTree = some [[(3, 2)], []] := by
     decide
   cases hx : deduplicateNamespaces {} c15UndeclWitness [] with
   | none => simp [hx] at hd
   | some t' =>
     have hk := h {} c15UndeclWitness t' hx
     simp only [hx, Option.map_some, Option.some.injEq] at hd
-    have := hk.get 1 [(2, 2)] [(2, 0), (2, 2)] (by rw [hd]; rfl) (by decide) (2, 0) (by simp) rfl
+    have := hk.get 1 [] [(2, 0), (2, 2)] (by rw [hd]; rfl) (by decide) (2, 0) (by simp) rfl
     simp at this
 
-/-! ### Idempotence -/
+/-! ### Termination and idempotence -/
 
-/-- A second call removes nothing — under two guards on the subtree the call is made on:
-    `noRebind []`: no element declares a prefix twice, and a prefix that is declared again further
-    down a path is bound to the same namespace there (so no removal can un-shadow a different
-    binding; the typical redundancy `xmlns:p="A"` repeated below `xmlns:p="A"` is allowed);
-    `noFlag env []`: no attribute name is in a namespace that is declared as the DEFAULT
-    namespace on the attribute's element or on an element above it (the DeduplicateTracker never
-    sets a flag, so no declaration owes its survival to a flag that a removal can strand).
-    Both are needed: `C15_idem_needs_noRebind`, `C15_idem_needs_noFlag`.  Exhaustive evaluation
-    of the model over 1 062 882 three-element trees (chains and forks, three prefixes incl. the
-    default, two namespaces, optional namespaced attribute per element): 55 068 are not
-    idempotent; 9 880 of those satisfy noFlag, 60 have no prefix declared twice on a path at all;
-    none of the 100 354 trees with both guards is among them. -/
-theorem C15_idem_partial (env : Env) (t t1 : Tree) (path : Path) (sub : Tree)
-    (hs : t.at? path = some sub) (hg : noRebind [] sub) (hf : noFlag env [] sub)
-    (h1 : deduplicateNamespaces env t path = some t1) :
-    deduplicateNamespaces env t1 path = some t1 :=
-  dedup_idem env t t1 path sub hs hg hf h1
+/-- **The `while` loop ends**: a pass that returns `true` ("removed something") has removed a node —
+    each entry of `to_remove` names an existing element and a prefix among its declarations. -/
+theorem C15_terminates (env : Env) (t : Tree) (path : Path) (sub : Tree) (hs : t.at? path = some sub)
+    (h : (dedupPass env t path sub).2 = true) : (dedupPass env t path sub).1.size < t.size :=
+  dedupPass_size_lt env t path sub hs h
 
-/-- The guards stated once for the whole tree serve every call node. -/
-theorem C15_idem_partial_tree (env : Env) (t t1 : Tree) (path : Path)
-    (hg : noRebind [] t) (hf : noFlag env [] t)
-    (h1 : deduplicateNamespaces env t path = some t1) :
-    deduplicateNamespaces env t1 path = some t1 := by
-  obtain ⟨sub, hs⟩ := deduplicateNamespaces_isSome env t t1 path h1
-  exact dedup_idem env t t1 path sub hs (noRebind_at path t sub _ hs hg)
-    (noFlag_at env path t sub _ hs hf) h1
+/-- … and a pass that returns `false` has changed nothing. -/
+theorem C15_pass_false (env : Env) (t : Tree) (path : Path) (sub : Tree)
+    (h : (dedupPass env t path sub).2 = false) : (dedupPass env t path sub).1 = t :=
+  dedupPass_of_no_removal env t path sub h
 
-/-- `NoShadowing` (the guard of `C15_serialises_partial`) is a special case of `noRebind`. -/
-theorem C15_idem_partial_noShadowing (env : Env) (t t1 : Tree) (path : Path)
-    (hg : NoShadowing t) (hf : noFlag env [] t)
-    (h1 : deduplicateNamespaces env t path = some t1) :
-    deduplicateNamespaces env t1 path = some t1 :=
-  C15_idem_partial_tree env t t1 path
-    (noRebind_of_noShadow t [Env.xmlPrefix] [] (by simp) hg) hf h1
+/-- **The fuel of the model suffices** (`dedupLoop_fuel_suffices`): the tree `deduplicate_namespaces`
+    returns is one on which a pass from the call node finds nothing to remove — the loop ended because a
+    pass returned `false`, not because `t.size + 1` rounds were used up — and any greater fuel gives the
+    same tree. -/
+theorem C15_fuel_suffices (env : Env) (t t' : Tree) (path : Path)
+    (h : deduplicateNamespaces env t path = some t') :
+    (∃ sub', t'.at? path = some sub' ∧ dedupToRemove env path sub' = []) ∧
+    ∀ extra, dedupLoop env path (t.size + 1 + extra) t = t' := by
+  refine ⟨deduplicateNamespaces_fixpoint env t t' path h, fun extra => ?_⟩
+  obtain ⟨sub, hs⟩ := deduplicateNamespaces_isSome env t t' path h
+  simp only [deduplicateNamespaces, hs, Option.some.injEq] at h
+  rw [dedupLoop_fuel_irrelevant env path (t.size + 1) extra t (by omega), h]
 
-/-- `noFlag` alone does not do: the witness of `C15_idem_false` has no attributes at all
-    (and re-binds `q` from `C` to `A`). -/
-theorem C15_idem_needs_noRebind :
-    ¬ ∀ (env : Env) (t t1 : Tree), noFlag env [] t →
-        deduplicateNamespaces env t [] = some t1 → deduplicateNamespaces env t1 [] = some t1 := by
+/-- **A second call removes nothing**, as the property states it: for every tree, every call node. -/
+theorem C15_idem (env : Env) (t t1 : Tree) (path : Path)
+    (h : deduplicateNamespaces env t path = some t1) : deduplicateNamespaces env t1 path = some t1 :=
+  deduplicateNamespaces_idem env t t1 path h
+
+/-- The three loops of one pass (edge traversal with the kept stack, `to_remove`, removal by prefix) on
+    ANY node amount to one recursive rebuild of the subtree — the kept stack starts EMPTY at the node, no
+    declaration above it is looked at — put back in place; the flag says whether `to_remove` was
+    non-empty. -/
+theorem C15_recursive_form (env : Env) (t : Tree) (path : Path) (sub : Tree)
+    (hs : t.at? path = some sub) :
+    dedupPass env t path sub = (scopeModifyAt (dpWalk env []) t path, !(dpRem env [] sub).isEmpty) :=
+  dedupPass_eq env t path sub hs
+
+/-! ### A tree that serialised before still serialises -/
+
+/-- **C15_serialises**: if `to_string(start)` found a prefix for every element and attribute name before
+    `deduplicate_namespaces(node)`, it does afterwards — for every start node that is not strictly
+    inside the subtree of `node` (`q = path ++ r` only with `r = []`): the root, every ancestor of
+    `node`, `node` itself, every node outside its subtree.  Such a node has the same raw path before and
+    after the call.  (Start nodes strictly inside: `C15_serialises_inside`.)
+    Hypothesis: no element of the call's subtree declares a prefix twice
+    (`C15_serialises_unique_needed`). -/
+theorem C15_serialises (env : Env) (t t' : Tree) (path : Path) (sub : Tree)
+    (hs : t.at? path = some sub) (hu : UniqueDeclsBelow sub)
+    (hd : deduplicateNamespaces env t path = some t') (q : Path)
+    (hq : ∀ r, q = path ++ r → r = [])
+    (hw : namesWritable env t q = some true) : namesWritable env t' q = some true :=
+  namesWritable_dedup env t t' path sub hs hu hd q hq hw
+
+/-- `to_string(root)` after a call on any node. -/
+theorem C15_serialises_root (env : Env) (t t' : Tree) (path : Path) (sub : Tree)
+    (hs : t.at? path = some sub) (hu : UniqueDeclsBelow sub)
+    (hd : deduplicateNamespaces env t path = some t')
+    (hw : namesWritable env t [] = some true) : namesWritable env t' [] = some true :=
+  C15_serialises env t t' path sub hs hu hd [] (fun _ h => (List.append_eq_nil_iff.1 h.symm).2) hw
+
+/-- `to_string(node)` after the call on `node`. -/
+theorem C15_serialises_call_node (env : Env) (t t' : Tree) (path : Path) (sub : Tree)
+    (hs : t.at? path = some sub) (hu : UniqueDeclsBelow sub)
+    (hd : deduplicateNamespaces env t path = some t')
+    (hw : namesWritable env t path = some true) : namesWritable env t' path = some true :=
+  C15_serialises env t t' path sub hs hu hd path (fun _ h => List.self_eq_append_right.1 h) hw
+
+/-- **Every start node strictly inside the call's subtree.**  Its raw path may differ before and after
+    (namespace nodes before it or before one of its ancestors may be gone), so the nodes are matched by
+    their position in `startPaths`: the paths of all nodes that are not namespace nodes (nor inside
+    one), in raw document order — the enumeration `declsOfTree` / `C15_subset` use; `C15_frame` says
+    the nodes are the same.  For every position `i`: if `to_string` of the `i`-th node found every
+    prefix before the call, `to_string` of the `i`-th node finds every prefix after it.
+    Hypotheses (on the call's subtree): no element declares a prefix twice, and only elements carry
+    namespace nodes (`OnlyElementsDeclare`; the call looks at the declarations of elements only,
+    `namespaces_in_scope` at those of every ancestor). -/
+theorem C15_serialises_inside (env : Env) (t t' : Tree) (path : Path) (sub : Tree)
+    (hs : t.at? path = some sub) (hu : UniqueDeclsBelow sub) (ho : OnlyElementsDeclare sub)
+    (hd : deduplicateNamespaces env t path = some t') :
+    (startPaths t').length = (startPaths t).length ∧
+    ∀ (i : Nat) (q q' : Path), (startPaths t)[i]? = some q → (startPaths t')[i]? = some q' →
+      namesWritable env t q = some true → namesWritable env t' q' = some true :=
+  namesWritable_dedup_everywhere env t t' path sub hs hu ho hd
+
+def c15OnlyElWitness : Tree :=
+  .node (.element 0) [.node (.namespace 3 2) [],
+    .node (.comment []) [.node (.namespace 3 3) [],
+      .node (.element 1) [.node (.namespace 2 2) []]]]
+
+def c15OnlyElEnv : Env := { namespaces := [], prefixes := [], names := [(['a'], 0), (['a'], 2)] }
+
+/-- `OnlyElementsDeclare` is needed for the start nodes inside: a COMMENT node with children (not
+    constructible through the API) `xmlns:q="M"` and `<p:a xmlns:p="N"/>` below `<r xmlns:q="N">`:
+    the call does not see the comment's declaration and removes `xmlns:p="N"` (witness `q`), but
+    `namespaces_in_scope(p:a)` does see it: started at `p:a`, `to_string` finds a prefix for `N` before
+    and none after.  (Started at the root it fails neither before nor after.) -/
+theorem C15_serialises_inside_only_elements_needed :
+    ¬ ∀ (env : Env) (t t' : Tree), UniqueDeclsBelow t → deduplicateNamespaces env t [] = some t' →
+        ∀ (i : Nat) (q q' : Path), (startPaths t)[i]? = some q → (startPaths t')[i]? = some q' →
+          namesWritable env t q = some true → namesWritable env t' q' = some true := by
   intro h
-  have key : ((deduplicateNamespaces {} c15IdemWitness []).bind fun t1 =>
-      (deduplicateNamespaces {} t1 []).map declsOfTree) ≠
+  have hu : UniqueDeclsBelow c15OnlyElWitness := uniqueDeclsB_sound _ (by decide)
+  have key : ((deduplicateNamespaces c15OnlyElEnv c15OnlyElWitness []).bind fun t' =>
+      ((startPaths t')[2]?).bind fun q' => namesWritable c15OnlyElEnv t' q') = some false := by decide
+  cases hd : deduplicateNamespaces c15OnlyElEnv c15OnlyElWitness [] with
+  | none => simp [hd] at key
+  | some t' =>
+    simp only [hd, Option.bind_some] at key
+    cases hq' : (startPaths t')[2]? with
+    | none => simp [hq'] at key
+    | some q' =>
+      have := h c15OnlyElEnv c15OnlyElWitness t' hu hd 2 [1, 1] q' (by decide) hq' (by decide)
+      simp [hq', this] at key
+
+/-- In the C01 domain (`RepresentableFragment`: every node `nodeOK`, hence unique prefixes per element
+    and namespace nodes under elements only) both hypotheses hold for every call node: every start
+    node of a representable tree keeps serialising. -/
+theorem C15_serialises_everywhere (env : Env) (t t' : Tree) (path : Path)
+    (hr : RepresentableFragment env t = true) (hd : deduplicateNamespaces env t path = some t') :
+    (startPaths t').length = (startPaths t).length ∧
+    ∀ (i : Nat) (q q' : Path), (startPaths t)[i]? = some q → (startPaths t')[i]? = some q' →
+      namesWritable env t q = some true → namesWritable env t' q' = some true := by
+  obtain ⟨sub, hs⟩ := deduplicateNamespaces_isSome env t t' path hd
+  exact C15_serialises_inside env t t' path sub hs
+    ((uniqueDeclsBelow_of_representableFragment hr).at hs)
+    (OnlyElementsDeclare.at path t sub (onlyElementsDeclare_of_representableFragment hr) hs) hd
+
+def c15DupWitness : Tree :=
+  .node (.element 0) [.node (.namespace 3 2) [],
+    .node (.element 0) [.node (.namespace 2 3) [], .node (.namespace 2 2) [],
+      .node (.element 1) []]]
+
+def c15DupEnv : Env := { namespaces := [], prefixes := [], names := [(['a'], 0), (['a'], 3)] }
+
+/-- The hypothesis is needed: `<a xmlns:q="A"><b xmlns:p="B" xmlns:p="A"><p:a/></b></a>` (`p` declared
+    twice on `b`, the serialiser's frame holds both; not constructible through the namespace map of the
+    API): `xmlns:p="A"` is redundant (`q`), the loop removes "the declaration of `p`", which is
+    `xmlns:p="B"`, and `{B}a` is left without a prefix. -/
+theorem C15_serialises_unique_needed :
+    ¬ ∀ (env : Env) (t t' : Tree), deduplicateNamespaces env t [] = some t' →
+        namesWritable env t [] = some true → namesWritable env t' [] = some true := by
+  intro h
+  have key : ((deduplicateNamespaces c15DupEnv c15DupWitness []).bind fun t' =>
+      namesWritable c15DupEnv t' []) = some false := by decide
+  have hw : namesWritable c15DupEnv c15DupWitness [] = some true := by decide
+  cases hd : deduplicateNamespaces c15DupEnv c15DupWitness [] with
+  | none => simp [hd] at key
+  | some t' =>
+    have := h c15DupEnv c15DupWitness t' hd hw
+    simp [hd, this] at key
+
+/-! ### Non-vacuity: the three trees on which the code before d434a2d violated the property -/
+
+/-- `<a xmlns:q="A"><b xmlns:p="A" xmlns:q="B"><p:a/></b></a>` (was `C15_serialises_false`): `q` is
+    bound to `A` above but re-bound on `b` itself, so `xmlns:p="A"` is KEPT and `{A}a` stays writable. -/
+def c15SerWitness : Tree :=
+  .node (.element 0) [.node (.namespace 3 2) [],
+    .node (.element 0) [.node (.namespace 2 2) [], .node (.namespace 3 3) [],
+      .node (.element 1) []]]
+
+def c15SerEnv : Env := { namespaces := [], prefixes := [], names := [(['a'], 0), (['a'], 2)] }
+
+example : namesWritable c15SerEnv c15SerWitness [] = some true ∧
+    (deduplicateNamespaces c15SerEnv c15SerWitness []).map declsOfTree =
+      some [[(3, 2)], [(2, 2), (3, 3)], []] ∧
+    ((deduplicateNamespaces c15SerEnv c15SerWitness []).bind fun t' =>
+      namesWritable c15SerEnv t' []) = some true := by decide
+
+example : UniqueDeclsBelow c15SerWitness := uniqueDeclsB_sound _ (by decide)
+
+/-- `<r xmlns:q="C" xmlns:p="A"><m xmlns:q="A"><n xmlns:r="C"/></m></r>` (was `C15_idem_false`): the
+    first call removes `xmlns:q="A"` from `m` (witness `p`) AND `xmlns:r="C"` from `n` (witness `q`: the
+    kept stack no longer holds `q ↦ A`); the second call removes nothing. -/
+def c15IdemWitness : Tree :=
+  .node (.element 0) [.node (.namespace 3 4) [], .node (.namespace 2 2) [],
+    .node (.element 0) [.node (.namespace 3 2) [],
+      .node (.element 0) [.node (.namespace 4 4) []]]]
+
+example : (deduplicateNamespaces {} c15IdemWitness []).map declsOfTree = some [[(3, 4), (2, 2)], [], []] ∧
+    ((deduplicateNamespaces {} c15IdemWitness []).bind fun t1 =>
+      (deduplicateNamespaces {} t1 []).map declsOfTree) =
       (deduplicateNamespaces {} c15IdemWitness []).map declsOfTree := by decide
-  apply key
-  have hf : noFlag {} [] c15IdemWitness := by
-    simp [c15IdemWitness, noFlag, noFlag.noFlagList, Tree.attrs, Tree.attributeNodes, Tree.kids,
-      Tree.value, Value.category]
-  cases hd : deduplicateNamespaces {} c15IdemWitness [] with
-  | none => rfl
-  | some t2 => simp [h {} c15IdemWitness t2 hf hd]
 
-def c15IdemWitness2 : Tree :=
-  .node (.element 0) [.node (.namespace 2 2) [],
-    .node (.element 0) [.node (.namespace 0 2) [],
-      .node (.element 0) [.node (.namespace 3 2) [], .node (.attribute 1 []) []]]]
+/-- A tree on which the loop needs MORE than one pass:
+    `<r xmlns:q="N" xmlns:r="M"><e xmlns:p="N"><x xmlns:q="M"/></e></r>`.  Pass 1 cannot remove
+    `xmlns:p="N"` (the only other prefix for `N`, `q`, is re-bound to `M` below `e`) but removes
+    `xmlns:q="M"` (witness `r`); pass 2 removes `xmlns:p="N"` (witness `q`, no longer re-bound); pass 3
+    removes nothing. -/
+def c15TwoPassWitness : Tree :=
+  .node (.element 0) [.node (.namespace 2 2) [], .node (.namespace 3 3) [],
+    .node (.element 0) [.node (.namespace 4 2) [],
+      .node (.element 0) [.node (.namespace 2 3) []]]]
 
-def c15IdemEnv2 : Env := { namespaces := [], prefixes := [], names := [(['a'], 0), (['x'], 2)] }
+example : declsOfTree (dedupPass {} c15TwoPassWitness [] c15TwoPassWitness).1 =
+      [[(2, 2), (3, 3)], [(4, 2)], []] ∧
+    (dedupPass {} c15TwoPassWitness [] c15TwoPassWitness).2 = true ∧
+    (deduplicateNamespaces {} c15TwoPassWitness []).map declsOfTree =
+      some [[(2, 2), (3, 3)], [], []] := by decide
 
-/-- `noRebind` (even `noShadow`) alone does not do:
-    `<r xmlns:p="A"><a xmlns="A"><b xmlns:q="A" q:x=""/></a></r>`.
-    The first call keeps `xmlns:q` (the attribute flagged the entry of `xmlns="A"`) and removes
-    `xmlns="A"`; the second call finds nothing flagged and removes `xmlns:q`. -/
-theorem C15_idem_needs_noFlag :
-    ¬ ∀ (env : Env) (t t1 : Tree), noShadow [] t → noRebind [] t →
-        deduplicateNamespaces env t [] = some t1 → deduplicateNamespaces env t1 [] = some t1 := by
-  intro h
-  have key : ((deduplicateNamespaces c15IdemEnv2 c15IdemWitness2 []).bind fun t1 =>
-      (deduplicateNamespaces c15IdemEnv2 t1 []).map declsOfTree) ≠
-      (deduplicateNamespaces c15IdemEnv2 c15IdemWitness2 []).map declsOfTree := by decide
-  apply key
-  have hg : noShadow [] c15IdemWitness2 := by
-    simp [c15IdemWitness2, noShadow, noShadow.noShadowList, nsDecls_node, declsOfKids, Tree.value]
-  cases hd : deduplicateNamespaces c15IdemEnv2 c15IdemWitness2 [] with
-  | none => rfl
-  | some t2 =>
-    simp [h c15IdemEnv2 c15IdemWitness2 t2 hg (noRebind_of_noShadow _ [] [] (by simp) hg) hd]
+/-- The raw path of the innermost element of `c15TwoPassWitness` changes (`[2, 1]` before, `[2, 0]`
+    after: the namespace node before it is gone); `startPaths` matches the two by position. -/
+example : startPaths c15TwoPassWitness = [[], [2], [2, 1]] ∧
+    (deduplicateNamespaces {} c15TwoPassWitness []).map startPaths = some [[], [2], [2, 0]] ∧
+    namesWritable {} c15TwoPassWitness [2, 1] = some true := by decide
 
-/-! ### Non-vacuity -/
+example : UniqueDeclsBelow c15TwoPassWitness := uniqueDeclsB_sound _ (by decide)
+
+example : OnlyElementsDeclare c15TwoPassWitness := by
+  simp [OnlyElementsDeclare, c15TwoPassWitness, Tree.Forall, Tree.Forall.forallList, Value.isElement,
+    nsDecls_node, declsOfKids]
 
 /-- `<a xmlns="A" xmlns:p="B"><b xmlns:q="A" q:x=""><c xmlns:r="B"/></b></a>` (a, b in A; x in A;
-    c in B): no shadowing, writable, and dedup removes `r` but must keep `q` (the attribute). -/
-def c15PartialWitness : Tree :=
+    c in B): writable, and dedup removes `r` but must keep `q` (the attribute needs a non-empty prefix). -/
+def c15AttrWitness : Tree :=
   .node (.element 0) [.node (.namespace 0 2) [], .node (.namespace 2 3) [],
     .node (.element 0) [.node (.namespace 3 2) [], .node (.attribute 1 []) [],
       .node (.element 2) [.node (.namespace 4 3) []]]]
 
-def c15PartialEnv : Env := { namespaces := [], prefixes := [], names := [(['a'], 2), (['x'], 2), (['c'], 3)] }
+def c15AttrEnv : Env := { namespaces := [], prefixes := [], names := [(['a'], 2), (['x'], 2), (['c'], 3)] }
 
-example : NoShadowing c15PartialWitness := by
-  simp [NoShadowing, c15PartialWitness, noShadow, noShadow.noShadowList, nsDecls_node, declsOfKids,
-    Tree.value, Env.xmlPrefix]
+example : namesWritable c15AttrEnv c15AttrWitness [] = some true ∧
+    (deduplicateNamespaces c15AttrEnv c15AttrWitness []).map declsOfTree =
+      some [[(0, 2), (2, 3)], [(3, 2)], [], []] := by decide
 
-example : namesWritable c15PartialEnv c15PartialWitness [] = some true := by decide
-
-example : (deduplicateNamespaces c15PartialEnv c15PartialWitness []).map declsOfTree =
-    some [[(0, 2), (2, 3)], [(3, 2)], [], []] := by decide
-
+example : UniqueDeclsBelow c15AttrWitness := uniqueDeclsB_sound _ (by decide)
 
 /-- `<a xmlns:p="A"><b xmlns:p="A"/></a>`: the redundant declaration on `b` goes, nothing else. -/
 example : (deduplicateNamespaces {} (.node (.element 0) [.node (.namespace 2 2) [],
       .node (.element 0) [.node (.namespace 2 2) []]]) []).map declsOfTree = some [[(2, 2)], []] := by decide
 
-/-- Inner call on `b` (path `[2]`) of `c15PartialWitness`: only `xmlns:r="B"`… stays (B is not
-    bound inside `b`'s subtree), and `xmlns:q` stays; the tree is still writable. -/
-example : (deduplicateNamespaces c15PartialEnv c15PartialWitness [2]).map declsOfTree =
-    some [[(0, 2), (2, 3)], [(3, 2)], [], [(4, 3)]] := by decide
+/-- Inner call on `b` (path `[2]`) of `c15AttrWitness`: `xmlns:r="B"` stays (B is not bound inside
+    `b`'s subtree), and `xmlns:q` stays; `to_string(b)` still finds every prefix. -/
+example : (deduplicateNamespaces c15AttrEnv c15AttrWitness [2]).map declsOfTree =
+      some [[(0, 2), (2, 3)], [(3, 2)], [], [(4, 3)]] ∧
+    namesWritable c15AttrEnv c15AttrWitness [2] = some true := by decide
 
 /-- `<a xmlns:p="A"><b><c xmlns:q="A"/><d xmlns=""/></b></a>`, call on `b` (path `[1]`): nothing
     is known inside `b`, nothing goes; call on the root: `xmlns:q` goes, `xmlns=""` stays. -/
@@ -322,34 +365,6 @@ example : (deduplicateNamespaces {} c15InnerWitness [1]).map declsOfTree =
 example : (deduplicateNamespaces {} c15InnerWitness []).map declsOfTree =
     some [[(2, 2)], [], [], [(0, 0)]] := by decide
 example : UniqueDeclsBelow c15InnerWitness := uniqueDeclsB_sound _ (by decide)
-example : NoShadowing c15InnerWitness := by
-  simp [NoShadowing, c15InnerWitness, noShadow, noShadow.noShadowList, nsDecls_node, declsOfKids,
-    Tree.value, Env.xmlPrefix]
-example : noFlag {} [] c15InnerWitness := by
-  simp [c15InnerWitness, noFlag, noFlag.noFlagList, Tree.attrs, Tree.attributeNodes, Tree.kids,
-    Tree.value, Value.category]
-
-/-- The guards of `C15_idem_partial` with attributes present: `c15PartialWitness` has `q:x` in `A`
-    under `xmlns="A"` — flagged, so NOT `noFlag`; with the attribute in `B` instead it is. -/
-example : noFlag { namespaces := [], prefixes := [], names := [(['a'], 2), (['x'], 3), (['c'], 3)] } []
-    c15PartialWitness := by
-  simp [c15PartialWitness, noFlag, noFlag.noFlagList, Tree.attrs, Tree.attributeNodes, Tree.kids,
-    Tree.value, Value.category, Tree.getNamespace, nsDecls_node, declsOfKids, Env.emptyPrefix,
-    Env.nsOfName]
-
-/-- `<a xmlns:p="A"><b xmlns:p="A"><c xmlns:q="A"/></b></a>`: `p` is declared twice on a path (not
-    `NoShadowing`) but never re-bound: both guards of `C15_idem_partial` hold, the first call removes
-    two declarations, the second none. -/
-def c15RebindWitness : Tree :=
-  .node (.element 0) [.node (.namespace 2 2) [],
-    .node (.element 0) [.node (.namespace 2 2) [], .node (.element 0) [.node (.namespace 3 2) []]]]
-
-example : noRebind [] c15RebindWitness := by
-  simp [c15RebindWitness, noRebind, noRebind.noRebindList, nsDecls_node, declsOfKids, Tree.value]
-example : noFlag {} [] c15RebindWitness := by
-  simp [c15RebindWitness, noFlag, noFlag.noFlagList, Tree.attrs, Tree.attributeNodes, Tree.kids,
-    Tree.value, Value.category]
-example : (deduplicateNamespaces {} c15RebindWitness []).map declsOfTree = some [[(2, 2)], [], []] := by decide
 
 /-! ### "… to text that reparses deep-equal to the original" (corollaries of C01_roundtrip) -/
 
@@ -365,10 +380,9 @@ theorem C15_representable_fragment (env : Env) (t t' : Tree) (path : Path)
     RepresentableFragment env t' = true :=
   representableFragment_deduplicateNamespaces t t' path hr h
 
-/-- The second half of the sentence at FULL strength (no `NoShadowing`): for a representable document
-    and a call on ANY node, whenever the tree after the call serialises, the text parses back (same
-    `Xot`) to exactly the tree after the call, interning nothing, and that tree is `deep_equal` to the
-    tree BEFORE the call.  What can go wrong is only the first half (`C15_serialises_false`). -/
+/-- The second half of the sentence: for a representable document and a call on ANY node, whenever the
+    tree after the call serialises, the text parses back (same `Xot`) to exactly the tree after the
+    call, interning nothing, and that tree is `deep_equal` to the tree BEFORE the call. -/
 theorem C15_reparses_deep_equal (env : Env) (t t' : Tree) (path : Path) (hr : Representable env t = true)
     (h : deduplicateNamespaces env t path = some t') (s : Str) (hs : toXmlString env t' [] = .ok s) :
     ∃ p, parseString .document env s = .ok p ∧ p.tree = t' ∧ p.env = env ∧ deepEqual p.tree t = true := by
@@ -382,17 +396,19 @@ theorem C15_reparses_deep_equal (env : Env) (t t' : Tree) (path : Path) (hr : Re
   rw [h2]
   exact deepEqual_of_stripNs (ok t' hr') (ok t hr) (C15_frame env t t' path h).1
 
-/-- **C15_roundtrip_partial**: the whole sentence under `NoShadowing` (the boundary of the defect
-    `C15_serialises_false`): a representable document every name of which `to_string` could write
-    before `deduplicate_namespaces(node)` — any node — serialises afterwards, and the text parses back
-    to the tree after the call, which is `deep_equal` to the original. -/
-theorem C15_roundtrip_partial (env : Env) (t t' : Tree) (path : Path) (hr : Representable env t = true)
-    (hd : deduplicateNamespaces env t path = some t') (hg : NoShadowing t)
+/-- **C15_roundtrip**: the whole sentence, full strength: a representable document every name of which
+    `to_string` could write before `deduplicate_namespaces(node)` — any node — serialises afterwards,
+    and the text parses back to the tree after the call, which is `deep_equal` to the original.
+    (`Representable` includes that no element declares a prefix twice.) -/
+theorem C15_roundtrip (env : Env) (t t' : Tree) (path : Path) (hr : Representable env t = true)
+    (hd : deduplicateNamespaces env t path = some t')
     (hw : namesWritable env t [] = some true) :
     ∃ s p, toXmlString env t' [] = .ok s ∧ parseString .document env s = .ok p ∧ p.tree = t' ∧
       p.env = env ∧ deepEqual p.tree t = true := by
   have hr' := C15_representable env t t' path hr hd
-  have hw' := C15_serialises_partial_inner env t t' path hd hg hw
+  obtain ⟨sub, hsub⟩ := deduplicateNamespaces_isSome env t t' path hd
+  have hw' := C15_serialises_root env t t' path sub hsub
+    ((uniqueDeclsBelow_of_representable hr).at hsub) hd hw
   have hfrag : RepresentableFragment env t' = true := by
     simp only [Representable, Bool.and_eq_true] at hr'; exact hr'.1
   obtain ⟨s, hs⟩ := (C01_serialises env t' hfrag).mpr hw'
@@ -400,14 +416,14 @@ theorem C15_roundtrip_partial (env : Env) (t t' : Tree) (path : Path) (hr : Repr
   exact ⟨s, p, hs, h1, h2, h3, h4⟩
 
 /-- With "serialised before" as the property words it (`to_string` returned a text). -/
-theorem C15_roundtrip_partial_text (env : Env) (t t' : Tree) (path : Path) (hr : Representable env t = true)
-    (hd : deduplicateNamespaces env t path = some t') (hg : NoShadowing t) (s0 : Str)
+theorem C15_roundtrip_text (env : Env) (t t' : Tree) (path : Path) (hr : Representable env t = true)
+    (hd : deduplicateNamespaces env t path = some t') (s0 : Str)
     (hs0 : toXmlString env t [] = .ok s0) :
     ∃ s p, toXmlString env t' [] = .ok s ∧ parseString .document env s = .ok p ∧ p.tree = t' ∧
       p.env = env ∧ deepEqual p.tree t = true := by
   have hfrag : RepresentableFragment env t = true := by
     simp only [Representable, Bool.and_eq_true] at hr; exact hr.1
-  exact C15_roundtrip_partial env t t' path hr hd hg ((C01_serialises env t hfrag).mp ⟨s0, hs0⟩)
+  exact C15_roundtrip env t t' path hr hd ((C01_serialises env t hfrag).mp ⟨s0, hs0⟩)
 
 /-- Non-vacuity, closed: `<r xmlns="urn:a" xmlns:p="urn:b"><p:c xmlns:q="urn:b"/></r>` — `xmlns:q` is
     redundant and removed; the hypotheses hold, the result serialises to
@@ -426,10 +442,6 @@ example : Representable c15RtEnv c15RtDoc = true ∧ namesWritable c15RtEnv c15R
       some ([[], [(0, 2), (2, 3)], []],
         .ok "<r xmlns=\"urn:a\" xmlns:p=\"urn:b\"><p:c/></r>".toList) := by decide
 
-theorem C15_rt_witness_noShadowing : NoShadowing c15RtDoc := by
-  simp [NoShadowing, c15RtDoc, noShadow, noShadow.noShadowList, nsDecls_node, declsOfKids,
-    Tree.value, Env.xmlPrefix]
-
 example : ∃ t' s p, deduplicateNamespaces c15RtEnv c15RtDoc [] = some t' ∧
     toXmlString c15RtEnv t' [] = .ok s ∧ parseString .document c15RtEnv s = .ok p ∧ p.tree = t' ∧
     deepEqual p.tree c15RtDoc = true := by
@@ -438,8 +450,7 @@ example : ∃ t' s p, deduplicateNamespaces c15RtEnv c15RtDoc [] = some t' ∧
     have : (deduplicateNamespaces c15RtEnv c15RtDoc []).isSome = true := by decide
     rw [hd] at this; cases this
   | some t' =>
-    obtain ⟨s, p, h1, h2, h3, _, h5⟩ := C15_roundtrip_partial c15RtEnv c15RtDoc t' [] (by decide) hd
-      C15_rt_witness_noShadowing (by decide)
+    obtain ⟨s, p, h1, h2, h3, _, h5⟩ := C15_roundtrip c15RtEnv c15RtDoc t' [] (by decide) hd (by decide)
     exact ⟨t', s, p, rfl, h1, h2, h3, h5⟩
 
 end XotModel.Props
